@@ -38,6 +38,8 @@ def gen_cases(tier, seed):
         if c["n"] % 3 == 0 and c["op"] in ("relu", "leaky_relu", "selu", "tanh", "sigmoid", "softmax", "log_softmax", "bce_with_logits", "cross_entropy"):
             c["a"] = dict(c["a"], vclass="large")            # saturating magnitudes: clamps / overflow guards must not be written into the operand
         c["storage"] = STORAGE[c["n"] % 4]
+        # operands whose dtype differs from the layer's parameters / from the prediction: float64 or integer input, integer / bool targets
+        c["mixed"] = [None, None, "input-other-float", None, "hard-int-target", "input-int", "hard-bool-target"][c["n"] % 7]
         c["dtype"] = ["float64", "float32"][c["n"] % 2]
         cases.append(c)
     for k in range(60 if tier == "quick" else 6000):
@@ -68,6 +70,7 @@ def run_op_case(ns, mon, case):
     dt = np.dtype(case["dtype"])
     viol, counters = [], {}
     pool = {}
+    held = []                       # (operand tensor, the array it held when it was handed over, its dtype)
     if case["kind"] == "tensor":
         op = OPS[case["op"]]
         a = case["args"]
@@ -79,6 +82,7 @@ def run_op_case(ns, mon, case):
             ts = [T(x, requires_grad=req) for x in xs]
             if a.get("alias"):
                 ts = [ts[0]] * len(ts)
+            held[:] = [(t, t.data, t.data.dtype) for t in ts]
             return ts, op.forms[case["form"]](ns, ts, a)
         sig = f"{op.name}.{case['form']}"
     else:
@@ -87,14 +91,25 @@ def run_op_case(ns, mon, case):
         specs, xs0 = nncommon.materialize(case)
         xs = [as_storage(x.astype(dt), case["storage"], rng, pool) if not sp["int"] else np.asarray(x, dtype=np.int64) for sp, x in zip(specs, xs0)]
         ints = [sp["int"] for sp in specs]
+        mixed = case.get("mixed")
+        other = np.dtype("float32") if dt == np.float64 else np.dtype("float64")
+        if mixed == "input-other-float" and not ints[0]:
+            xs[0] = as_storage(np.asarray(xs0[0]).astype(other), case["storage"], rng, pool)
+        elif mixed == "input-int" and not ints[0] and specs[0].get("vclass") not in ("prob", "positive", "runvar"):     # (integers outside (0,1) are no probabilities)
+            xs[0] = np.rint(np.asarray(xs0[0]) * 3).astype(np.int64); ints[0] = True
+        elif mixed in ("hard-int-target", "hard-bool-target") and op.name in ("bce_loss", "bce_with_logits", "mse_loss") and len(xs) >= 2:
+            xs[1] = (np.asarray(xs0[1]) > 0.5).astype(np.int64 if mixed == "hard-int-target" else np.bool_); ints[1] = True
+        else:
+            mixed = None
         argclass = op.argclass(a)
         state_ok = op.name == "batch_norm"
 
         def fwd(req):
             ts = [T(x) if i_ else T(x, requires_grad=req and sp["diff"]) for x, i_, sp in zip(xs, ints, specs)]
+            held[:] = [(t, t.data, t.data.dtype) for t in ts]
             # module forms copy parameter data into the layer: hand them the very arrays under observation
             return ts, op.forms[case["form"]](ns, ts, copy.deepcopy(a))
-        sig = f"{op.name}.{case['form']}"
+        sig = f"{op.name}.{case['form']}" + (f"[{mixed}]" if mixed else "")
     by_data = rng.standard_normal((3, 2)).astype(dt)
     bystander = T(by_data, requires_grad=True)
     (bystander * 2.0).sum().backward()
@@ -107,6 +122,11 @@ def run_op_case(ns, mon, case):
         mon.drain()
         return {"counters": {"forward_rejected": 1}}
     counters["forward_snapshots"] = 1
+    rebound = [i for i, (t, d0, dt0) in enumerate(held) if t.data is not d0 or t.data.dtype != dt0]
+    if rebound:
+        t, d0, dt0 = held[rebound[0]]
+        viol.append(V(f"{sig}:forward-rebound-operand-data", f"forward replaced the data array of operand {rebound[0]} (dtype {dt0} -> {t.data.dtype}): "
+                      "the caller's tensor no longer holds what it was given", which=rebound, args=a))
     if snap(watched) != s0:
         which = [i for i, (p, q) in enumerate(zip(s0, snap(watched))) if p != q]
         viol.append(V(f"{sig}:forward-modified-" + ("operand" if which[0] < len(xs) else "bystander"), "forward changed the bytes of an operand/target or of a bystander tensor",
@@ -133,6 +153,9 @@ def run_op_case(ns, mon, case):
             mon.drain()
             return {"counters": dict(counters, backward_rejected=1)}
         counters["backward_snapshots"] = 1
+        rebound = [i for i, (t, d0, dt0) in enumerate(held) if t.data is not d0 or t.data.dtype != dt0]
+        if rebound and not any(v["sig"].endswith("forward-rebound-operand-data") for v in viol):
+            viol.append(V(f"{sig}:backward-rebound-operand-data", f"backward replaced the data array of operand {rebound[0]}", which=rebound, args=a))
         s1 = snap(watched)
         if s1 != s0:
             which = [i for i, (p, q) in enumerate(zip(s0, s1)) if p != q]
@@ -305,6 +328,23 @@ def run_mutators(ns, mon, case):
         viol.append(V("batch_norm-training:modified-input-or-affine", "training batch-norm changed x, gamma or beta"))
     if np.array_equal(bn.running_mean.data, rm0):
         viol.append(V("batch_norm-training:running-stats-not-updated", "training batch-norm did not update running statistics"))
+    # outside a training forward the running statistics are never written: eval mode, also after tracking was switched off on the live module,
+    # on a fresh module (no training forward yet) and across repeated eval forwards
+    for fresh in (False, True):
+        for toggle in (False, True):
+            bn2 = nn.BatchNorm1d(3) if fresh else bn
+            if toggle:
+                bn2.track_running_stats = False
+            bn2.eval()
+            rs = (bn2.running_mean.data.tobytes(), bn2.running_var.data.tobytes())
+            for _ in range(3):
+                y2 = bn2(T(rng.standard_normal((5, 3)).astype(np.float32), requires_grad=True)); y2.sum().backward()
+            n += 1
+            if (bn2.running_mean.data.tobytes(), bn2.running_var.data.tobytes()) != rs:
+                viol.append(V("batch_norm-eval:running-stats-modified" + (":tracking-switched-off-after-construction" if toggle else "") + (":fresh-module" if fresh else ""),
+                              "an eval-mode forward/backward changed the running statistics"))
+            bn2.track_running_stats = True
+            bn2.train()
     viol += mon.drain()
     return {"keys": [("mutators", i) for i in range(2)], "evals": n, "viol": dedup(viol), "counters": {"mutator_checks": n}}
 
